@@ -134,6 +134,12 @@ type summaryRec struct {
 	Total   int `json:"total"`
 }
 
+// markers registered / hit, per kind (tester/shared/coverage.go)
+type covRec struct {
+	Total map[string]int `json:"total"`
+	Hit   map[string]int `json:"hit"`
+}
+
 type runRec struct {
 	Kind     string     `json:"kind"`
 	ID       string     `json:"id,omitempty"`
@@ -144,6 +150,7 @@ type runRec struct {
 	Cases    []caseExp  `json:"cases"`
 	Summary  summaryRec `json:"summary"`
 	Counter  counterRec `json:"counter"`
+	Coverage *covRec    `json:"coverage,omitempty"`
 	ExitReq  int        `json:"exitReq"`
 	ExitMech int        `json:"exitMech"`
 }
@@ -179,6 +186,10 @@ func renderExpr(e *expr, bare bool) string {
 		return e.F + "()"
 	case "eq":
 		return "req.http." + e.H + " == " + strconv.Quote(e.V)
+	case "isset":
+		return "req.http." + e.H
+	case "acl":
+		return "req.http." + e.H + " ~ internal"
 	}
 	panic("unknown expression kind " + e.K)
 }
@@ -270,6 +281,7 @@ func sortedSubs(m map[string]sub) []string {
 func renderMain(m *mainRec, seed int64) string {
 	r := &renderer{seed: seed}
 	r.w(0, "backend example { .host = \"example.com\"; }")
+	r.w(0, "acl internal { \"192.0.2.0\"/24; }")
 	r.w(0, "table tbl STRING {")
 	r.w(1, "\"k\": \"v0\",")
 	r.w(0, "}")
@@ -433,6 +445,7 @@ type obsRun struct {
 	Asserts int         `json:"asserts,omitempty"`
 	Exit    int         `json:"exit"`
 	CovSeen bool        `json:"cov_seen,omitempty"`
+	Cov     *covRec     `json:"coverage,omitempty"`
 }
 
 var logPos = regexp.MustCompile(` \([^() ]+ \d+:\d+\)$`)
@@ -497,6 +510,22 @@ func c10Child(args []string) int {
 	st := factory.Statistics
 	o.Counter = &counterRec{Asserts: st.Asserts, Passes: st.Passes, Fails: st.Fails, Skips: st.Skips}
 	o.CovSeen = factory.Coverage != nil
+	if factory.Coverage != nil {
+		count := func(m map[string]uint64) (total, hit int) {
+			for _, n := range m {
+				total++
+				if n > 0 {
+					hit++
+				}
+			}
+			return
+		}
+		c := &covRec{Total: map[string]int{}, Hit: map[string]int{}}
+		c.Total["subroutine"], c.Hit["subroutine"] = count(factory.Coverage.Subroutines)
+		c.Total["statement"], c.Hit["statement"] = count(factory.Coverage.Statements)
+		c.Total["branch"], c.Hit["branch"] = count(factory.Coverage.Branches)
+		o.Cov = c
+	}
 	// the API has no exit status; what cmd/falco derives it from is reported as a mechanism observable only
 	if st.Fails > 0 {
 		o.Exit = 1
@@ -728,6 +757,16 @@ func compare(b *runRec, o *obsRun, res *hx.CaseResult) {
 	if o.Counter != nil && *o.Counter != b.Counter {
 		dr(map[string]any{"obs": "mech-counter", "expected": b.Counter, "got": o.Counter})
 	}
+	// the markers interpreter/coverage.go registers and the ones the run hits, per kind, against the
+	// specification's transcription of the instrumentation
+	if o.Cov != nil && b.Coverage != nil {
+		for _, k := range []string{"subroutine", "statement", "branch"} {
+			if o.Cov.Total[k] != b.Coverage.Total[k] || o.Cov.Hit[k] != b.Coverage.Hit[k] {
+				dr(map[string]any{"obs": "mech-markers", "kind": k, "expected": []int{b.Coverage.Hit[k], b.Coverage.Total[k]},
+					"got": []int{o.Cov.Hit[k], o.Cov.Total[k]}})
+			}
+		}
+	}
 	if o.Mode != "json" && o.CovSeen != b.Cov {
 		dr(map[string]any{"obs": "mech-coverage-report", "expected": b.Cov, "got": o.CovSeen})
 	}
@@ -821,10 +860,20 @@ func c10Replay(args []string) int {
 					os.Exit(2)
 				}
 				var observed []obsRun
-				for _, mode := range strings.Split(*modes, ",") {
+				runModes := *modes
+				if b.ID != "" {
+					runModes = "api,json,plain" // canaries and replayed cases are run every way
+				}
+				for _, mode := range strings.Split(runModes, ",") {
 					var o obsRun
 					if mode == "cli" { // one of the two CLI modes, alternating
 						mode = []string{"json", "plain"}[int(cs%2)]
+					}
+					if mode == "cli3" { // the same for every third behaviour only
+						if cs%3 != 0 {
+							continue
+						}
+						mode = []string{"json", "plain"}[int((cs/3)%2)]
 					}
 					switch mode {
 					case "api":
